@@ -23,13 +23,14 @@ def load_known():
 
 
 def _worker(args):
-    mod_name, gname, tier, seed, ws, binary = args
+    mod_name, gname, tier, seed, ws, binary, active = args
     t0 = time.time()
     try:
         mod = importlib.import_module('msmt.props.' + mod_name)
         g = [x for x in mod.groups(tier) if x['name'] == gname][0]
         from .session import Session
         s = Session(gname, tier, seed, ws, binary, g.get('timeout_s'))
+        s.known = set(active)
         g['fn'](s, **g.get('args', {}))
         out = s.report()
     except workspace.Inconclusive as e:
@@ -76,6 +77,8 @@ def main(argv=None):
     except ImportError as e:
         print('INCONCLUSIVE property=%s reason=no check module (%s)' % (pid, e))
         return 2
+    active, msgs = active_known(pid, mod, binary)
+    msgs_global[:] = msgs
     gs = mod.groups(tier)
     if a.only:
         gs = [g for g in gs if a.only in g['name']]
@@ -83,7 +86,7 @@ def main(argv=None):
     if seed:
         import random
         random.Random(seed).shuffle(order)
-    jobs = [(mod_name, gs[i]['name'], tier, seed, ws, binary) for i in order]
+    jobs = [(mod_name, gs[i]['name'], tier, seed, ws, binary, sorted(active)) for i in order]
     outs = []
     if a.jobs <= 1 or len(jobs) == 1:
         for j in jobs:
@@ -94,10 +97,32 @@ def main(argv=None):
             for o in pool.imap_unordered(_worker, jobs):
                 outs.append(o)
     outs.sort(key=lambda o: o['group'])
-    return finish(pid, tier, seed, outs, mod, time.time() - t0)
+    return finish(pid, tier, seed, outs, mod, time.time() - t0, msgs)
 
 
-def finish(pid, tier, seed, outs, mod, wall):
+def active_known(pid, mod, binary):
+    """open known findings of this property whose witness still reproduces natively: their class is excluded from the
+    obligations (any other violation is still reported) and a KNOWN-FINDING line is printed for each"""
+    active, msgs = set(), []
+    table = getattr(mod, 'KNOWN', {})
+    for k in load_known().get('open', []):
+        if k.get('property') != pid:
+            continue
+        w = table.get(k.get('class'))
+        if w is None:
+            continue                      # a listed class this check does not implement suppresses nothing
+        prog, judge = w()
+        try:
+            verdict, detail = judge(rp.run(binary, [prog])[0])
+        except Exception as e:
+            verdict, detail = 'error', str(e)
+        if verdict == 'confirmed':
+            active.add(k['class'])
+            msgs.append((k, detail))
+    return active, msgs
+
+
+def finish(pid, tier, seed, outs, mod, wall, msgs=()):
     known = load_known()
     results = []
     for o in outs:
@@ -116,11 +141,8 @@ def finish(pid, tier, seed, outs, mod, wall):
                 viol.append(r)
         elif r['verdict'] == 'inconclusive':
             inconc.append(r)
-    seen = set()
-    for k, r in knownhits:
-        if k['what'] not in seen:
-            seen.add(k['what'])
-            print('KNOWN-FINDING: property=%s %s' % (pid, k['what']))
+    for k, detail in msgs:
+        print('KNOWN-FINDING: property=%s %s [witness: %s]' % (pid, k['what'], detail[:200]))
     code = 0
     nrep = 0
     for r in viol:
@@ -163,6 +185,9 @@ def match_known(pid, r, known):
     return None
 
 
+msgs_global = []
+
+
 def write_evidence(pid, tier, seed, results, stats, wall, mod=None, groups=None, inconclusive=None):
     samples = []
     for r in results[:60]:
@@ -199,6 +224,7 @@ def write_evidence(pid, tier, seed, results, stats, wall, mod=None, groups=None,
         'wall_s': round(wall, 2),
         'violations': len([r for r in results if r['verdict'] == 'violated']),
         'known_findings_hit': sorted({r['known'] for r in results if r['verdict'] == 'known'}),
+        'known_findings_active': [k['what'] for k, _ in (msgs_global or [])],
         'inconclusive': len([r for r in results if r['verdict'] == 'inconclusive']),
     }
     if cov['states'] == 0:
